@@ -5,18 +5,19 @@ C02 — satisfiable with the caller's assets ⇒ a satisfaction is found.
 restricted to the caller's assets (`Spec/SatTable.lean`: `satEx`, `dsatEx`); the satisfier is
 the model `satDissat` of `src/miniscript/satisfy/{mod,sat_dissat}.rs` (`Model/Satisfy.lean`).
 
-Results (all by induction over the AST, Lemmas/Complete*.lean):
+Results (all by induction over the AST, Lemmas/Complete*.lean), at full strength for `satDissat`:
 
-  T1  malleable mode (`satisfy_malleable`), BOTH halves (satisfaction and dissatisfaction):
-        * `mall_complete_table_false`    the full statement is FALSE for the current code (F3:
-                                         `j:X` is given the dissatisfaction IMPOSSIBLE instead of `0`)
-        * `mall_complete_table_partial`  true for every script without a `j:` wrapper
-        * `mall_complete_table_fixed`    true for EVERY script once the `j:` row is the
-                                         specification's (`satDissatFixed`)
-  T3  non-malleable mode (`satisfy`), scripts whose type is `m` (non-malleable) and `s`, every
-      hash preimage known, no raw `pkh` (refused by the sanity rules), `1 ≤ k ≤ n` in `thresh`:
-        * `nonmall_complete_false`, `nonmall_complete_partial`, `nonmall_complete_fixed`
-      — hash fragments and time locks INCLUDED.
+  T1  `mall_complete_table` — malleable mode (`satisfy_malleable`), BOTH halves (satisfaction
+      and dissatisfaction), every script (typed or not, every base type), any `root_has_sig`.
+  T3  `nonmall_complete` — non-malleable mode (`satisfy`), scripts whose type is `m`
+      (non-malleable) and `s`, every hash preimage known, no raw `pkh` (refused by the sanity
+      rules), `1 ≤ k ≤ n` in `thresh` — hash fragments and time locks INCLUDED.
+
+History: until the fix of defect F3 (`/repo` commit "fix: j: wrapper dissatisfaction is a
+single empty push, not impossible") both statements were FALSE for the code (witnesses
+`f3Script`, `f3SaneScript` below, kept as regression examples).  The proofs are parameterised
+over the `j:` dissatisfaction (`satDissatG nz`, Lemmas/CompleteFixed.lean): they need
+`nz = push0` or a script without `j:`; `MODEL_NZ` is the literal of the current code.
 
 Explicit hypotheses, all decidable predicates over the nodes of the script:
   `NoMixedLocks a ms`  the locks of `ms` that the assets declare satisfied have one unit per kind
@@ -26,13 +27,6 @@ Explicit hypotheses, all decidable predicates over the nodes of the script:
                        `as i64` differences that `thresh_mall` sorts by lie strictly between its
                        `i64::MIN` / `i64::MAX` sentinels.  Without a size bound the statement is
                        false for the unbounded-`Nat` model.
-
-After the fix of /repo (`dissat: Self::push_0()` in the `Terminal::NonZero` arm) and of
-`Model/Satisfy.lean` (`.nonZero x => ⟨Sat.push0, (satDissat c x).sat⟩`):
-  1. in Lemmas/CompleteFixed.lean change `def MODEL_NZ : Sat := Sat.IMPOSSIBLE` to `Sat.push0`;
-  2. delete `mall_complete_table_false`, `nonmall_complete_false` and their witnesses here;
-  3. un-comment the two theorems in the block "AFTER THE FIX" at the end of this file
-     (`mall_complete_table`, `nonmall_complete`): they are the `_full` statements.
 -/
 import MsVerif.Lemmas.CompleteMall
 import MsVerif.Lemmas.CompleteNonMall
@@ -113,14 +107,17 @@ theorem mall_complete_generic (nz : Sat) (ke : KeyEnv) (ctx : Ctx) (rhs : Bool) 
   rw [avail_eq]
   exact ⟨fun h => isStk_exists (inv.sat h), fun h => isStk_exists (inv.dsat h)⟩
 
-/-- the full T1 statement for the model of the CURRENT code -/
-def mall_complete_table_full : Prop :=
-  ∀ (ke : KeyEnv) (ctx : Ctx) (rhs : Bool) (a : Assets) (ms : Ms),
-    NoMixedLocks a ms → SigSizesOK a → SmallScript ms →
+/-- T1: if the table has a satisfaction (dissatisfaction) built from the caller's assets, the
+malleable-mode satisfier returns a stack for the satisfaction (dissatisfaction) half — every
+script, both halves, any `root_has_sig` -/
+theorem mall_complete_table (ke : KeyEnv) (ctx : Ctx) (rhs : Bool) (a : Assets) (ms : Ms)
+    (hlk : NoMixedLocks a ms) (hsz : SigSizesOK a) (hsm : SmallScript ms) :
     (satEx (avail a ctx) ms = true → ∃ w, (satDissat ⟨ke, ctx, true, rhs, a⟩ ms).sat.stack = .stack w) ∧
-    (dsatEx (avail a ctx) ms = true → ∃ w, (satDissat ⟨ke, ctx, true, rhs, a⟩ ms).dissat.stack = .stack w)
+    (dsatEx (avail a ctx) ms = true → ∃ w, (satDissat ⟨ke, ctx, true, rhs, a⟩ ms).dissat.stack = .stack w) := by
+  have := mall_complete_generic MODEL_NZ ke ctx rhs a ms (.inl rfl) hlk hsz hsm
+  rwa [satDissatG_model] at this
 
-/-- F3 witness: `or_d(j:multi(1,K0),pk(K1))` … -/
+/-- former F3 witness: `or_d(j:multi(1,K0),pk(K1))` … -/
 def f3Script : Ms := .orD (.nonZero (.multi 1 [0])) (.check (.pkK 1))
 /-- … with a signature for `K1` only: the witness `[sig_K1, <>]` satisfies the script -/
 def f3Assets : Assets where
@@ -143,41 +140,18 @@ macro "table_eval" : tactic =>
 theorem f3_table_satisfiable : satEx (avail f3Assets .segwitv0) f3Script = true := by
   unfold f3Script f3Assets; table_eval
 
-theorem f3_model_refuses :
-    (satDissat ⟨keyEnv0, .segwitv0, true, true, f3Assets⟩ f3Script).sat.stack = .impossible ∧
-    (satDissat ⟨keyEnv0, .segwitv0, false, true, f3Assets⟩ f3Script).sat.stack = .impossible := by
+/-- regression (F3): the satisfier now returns exactly the witness `[sig_K1, <>]` in both modes -/
+theorem f3_model_satisfies :
+    (satDissat ⟨keyEnv0, .segwitv0, true, true, f3Assets⟩ f3Script).sat.stack
+      = .stack [.ecdsaSig 1, .pushZero] ∧
+    (satDissat ⟨keyEnv0, .segwitv0, false, true, f3Assets⟩ f3Script).sat.stack
+      = .stack [.ecdsaSig 1, .pushZero] := by
   decide
 
-/-- T1 is FALSE for the current code (defect F3): the table satisfies
-`or_d(j:multi(1,K0),pk(K1))` from a signature for `K1` alone, the satisfier answers Impossible. -/
-theorem mall_complete_table_false : ¬ mall_complete_table_full := by
-  intro h
-  obtain ⟨w, hw⟩ := (h keyEnv0 .segwitv0 true f3Assets f3Script (by decide)
-    (sizesOK_of_noSchnorr _ (fun _ => rfl) (fun _ => rfl)) (by decide)).1 f3_table_satisfiable
-  rw [f3_model_refuses.1] at hw
-  cases hw
-
-/-- T1 for the current code, scripts without `j:` (every base type, typed or not; both
-halves; any `root_has_sig`) -/
-theorem mall_complete_table_partial (ke : KeyEnv) (ctx : Ctx) (rhs : Bool) (a : Assets) (ms : Ms)
-    (hnz : NoNonZero ms) (hlk : NoMixedLocks a ms) (hsz : SigSizesOK a) (hsm : SmallScript ms) :
-    (satEx (avail a ctx) ms = true → ∃ w, (satDissat ⟨ke, ctx, true, rhs, a⟩ ms).sat.stack = .stack w) ∧
-    (dsatEx (avail a ctx) ms = true → ∃ w, (satDissat ⟨ke, ctx, true, rhs, a⟩ ms).dissat.stack = .stack w) := by
-  have := mall_complete_generic MODEL_NZ ke ctx rhs a ms (.inr hnz) hlk hsz hsm
-  rwa [satDissatG_model] at this
-
-/-- T1 at full strength for the FIXED satisfier (`satDissatFixed`: `satDissat` with
-`dsat(j:X) = 0`): every script, both halves -/
-theorem mall_complete_table_fixed (ke : KeyEnv) (ctx : Ctx) (rhs : Bool) (a : Assets) (ms : Ms)
-    (hlk : NoMixedLocks a ms) (hsz : SigSizesOK a) (hsm : SmallScript ms) :
-    (satEx (avail a ctx) ms = true → ∃ w, (satDissatFixed ⟨ke, ctx, true, rhs, a⟩ ms).sat.stack = .stack w) ∧
-    (dsatEx (avail a ctx) ms = true → ∃ w, (satDissatFixed ⟨ke, ctx, true, rhs, a⟩ ms).dissat.stack = .stack w) :=
-  mall_complete_generic Sat.push0 ke ctx rhs a ms (.inl rfl) hlk hsz hsm
-
-/-- the fix repairs the F3 witness -/
-theorem f3_fixed_satisfies :
-    ∃ w, (satDissatFixed ⟨keyEnv0, .segwitv0, true, true, f3Assets⟩ f3Script).sat.stack = .stack w :=
-  (mall_complete_table_fixed keyEnv0 .segwitv0 true f3Assets f3Script (by decide)
+/-- the same through T1 -/
+theorem f3_satisfied_by_T1 :
+    ∃ w, (satDissat ⟨keyEnv0, .segwitv0, true, true, f3Assets⟩ f3Script).sat.stack = .stack w :=
+  (mall_complete_table keyEnv0 .segwitv0 true f3Assets f3Script (by decide)
     (sizesOK_of_noSchnorr _ (fun _ => rfl) (fun _ => rfl)) (by decide)).1 f3_table_satisfiable
 
 /-! ### non-vacuity of T1's hypotheses -/
@@ -201,11 +175,11 @@ def ex1Assets : Assets where
 theorem ex1_table : satEx (avail ex1Assets .segwitv0) ex1Script = true := by
   unfold ex1Script ex1Assets; table_eval
 
-example : (typeOf ex1Script).isSome = true ∧ NoNonZero ex1Script ∧ NoMixedLocks ex1Assets ex1Script ∧
+example : (typeOf ex1Script).isSome = true ∧ NoMixedLocks ex1Assets ex1Script ∧
     SmallScript ex1Script := by decide
 
 example : ∃ w, (satDissat ⟨keyEnv0, .segwitv0, true, true, ex1Assets⟩ ex1Script).sat.stack = .stack w :=
-  (mall_complete_table_partial keyEnv0 .segwitv0 true ex1Assets ex1Script (by decide) (by decide)
+  (mall_complete_table keyEnv0 .segwitv0 true ex1Assets ex1Script (by decide)
     (sizesOK_of_noSchnorr _ (fun _ => rfl) (fun _ => rfl)) (by decide)).1 ex1_table
 
 /-! ## T3 — non-malleable mode -/
@@ -227,62 +201,34 @@ theorem nonmall_complete_generic (nz : Sat) (ke : KeyEnv) (ctx : Ctx) (a : Asset
   rw [avail_eq]
   exact fun h => isStk_exists (inv.cs h)
 
-/-- the full T3 statement for the model of the CURRENT code: a script whose type is
-non-malleable and signed (what `validate(&ExtParams::sane())` demands), all preimages known -/
-def nonmall_complete_full : Prop :=
-  ∀ (ke : KeyEnv) (ctx : Ctx) (a : Assets) (ms : Ms) (τ : Ty),
-    typeOf ms = some τ → τ.mall.nonMall = true → τ.mall.signed = true →
-    NoRawPkH ms → AllPreimages a ms → ThreshKOK ms → NoMixedLocks a ms →
+/-- T3: a script whose type is non-malleable and signed (what `validate(&ExtParams::sane())`
+demands), all preimages known: if the table has a satisfaction built from the caller's assets,
+the non-malleable satisfier returns a stack -/
+theorem nonmall_complete (ke : KeyEnv) (ctx : Ctx) (a : Assets) (ms : Ms) (τ : Ty)
+    (hτ : typeOf ms = some τ) (hm : τ.mall.nonMall = true) (hs : τ.mall.signed = true)
+    (hraw : NoRawPkH ms) (hpre : AllPreimages a ms) (hk : ThreshKOK ms) (hlk : NoMixedLocks a ms) :
     satEx (avail a ctx) ms = true →
-      ∃ w, (satDissat ⟨ke, ctx, false, τ.mall.signed, a⟩ ms).sat.stack = .stack w
+      ∃ w, (satDissat ⟨ke, ctx, false, τ.mall.signed, a⟩ ms).sat.stack = .stack w := by
+  have := nonmall_complete_generic MODEL_NZ ke ctx a ms τ hτ hm hs (.inl rfl) hraw hpre hk hlk
+  rwa [satDissatG_model] at this
 
-/-- a SANE script hit by F3: `or_d(j:and_v(v:pk(K0),pk(K2)),pk(K1))` (type `Bdu/esm`) with a
-signature for `K1` only; the witness `[sig_K1, <>]` satisfies it -/
+/-- former F3 witness that passes the sanity rules: `or_d(j:and_v(v:pk(K0),pk(K2)),pk(K1))`
+(type `Bdu/esm`) with a signature for `K1` only; the witness `[sig_K1, <>]` satisfies it -/
 def f3SaneScript : Ms :=
   .orD (.nonZero (.andV (.verify (.check (.pkK 0))) (.check (.pkK 2)))) (.check (.pkK 1))
 
 theorem f3Sane_sane : ∃ τ, typeOf f3SaneScript = some τ ∧ τ.corr.base = .B ∧
     τ.mall.nonMall = true ∧ τ.mall.signed = true := ⟨_, rfl, by decide⟩
 
-theorem f3Sane_model_refuses :
-    satEx (avail f3Assets .segwitv0) f3SaneScript = true ∧
-    (satDissat ⟨keyEnv0, .segwitv0, false, true, f3Assets⟩ f3SaneScript).sat.stack = .impossible ∧
-    (satDissat ⟨keyEnv0, .segwitv0, true, true, f3Assets⟩ f3SaneScript).sat.stack = .impossible := by
-  refine ⟨by unfold f3SaneScript f3Assets; table_eval, by decide, by decide⟩
+theorem f3Sane_table_satisfiable : satEx (avail f3Assets .segwitv0) f3SaneScript = true := by
+  unfold f3SaneScript f3Assets; table_eval
 
-/-- T3 is FALSE for the current code (defect F3) on a script that passes the sanity rules -/
-theorem nonmall_complete_false : ¬ nonmall_complete_full := by
-  intro h
+/-- regression (F3) through T3 -/
+theorem f3Sane_satisfied_by_T3 :
+    ∃ w, (satDissat ⟨keyEnv0, .segwitv0, false, true, f3Assets⟩ f3SaneScript).sat.stack = .stack w := by
   obtain ⟨τ, hτ, _, hm, hs⟩ := f3Sane_sane
-  obtain ⟨w, hw⟩ := h keyEnv0 .segwitv0 f3Assets f3SaneScript τ hτ hm hs (by decide) (by decide)
-    (by decide) (by decide) f3Sane_model_refuses.1
-  rw [hs, f3Sane_model_refuses.2.1] at hw
-  cases hw
-
-/-- T3 for the current code: scripts without `j:`; hash fragments and time locks included -/
-theorem nonmall_complete_partial (ke : KeyEnv) (ctx : Ctx) (a : Assets) (ms : Ms) (τ : Ty)
-    (hτ : typeOf ms = some τ) (hm : τ.mall.nonMall = true) (hs : τ.mall.signed = true)
-    (hnz : NoNonZero ms) (hraw : NoRawPkH ms) (hpre : AllPreimages a ms)
-    (hk : ThreshKOK ms) (hlk : NoMixedLocks a ms) :
-    satEx (avail a ctx) ms = true →
-      ∃ w, (satDissat ⟨ke, ctx, false, τ.mall.signed, a⟩ ms).sat.stack = .stack w := by
-  have := nonmall_complete_generic MODEL_NZ ke ctx a ms τ hτ hm hs (.inr hnz) hraw hpre hk hlk
-  rwa [satDissatG_model] at this
-
-/-- T3 at full strength for the FIXED satisfier -/
-theorem nonmall_complete_fixed (ke : KeyEnv) (ctx : Ctx) (a : Assets) (ms : Ms) (τ : Ty)
-    (hτ : typeOf ms = some τ) (hm : τ.mall.nonMall = true) (hs : τ.mall.signed = true)
-    (hraw : NoRawPkH ms) (hpre : AllPreimages a ms) (hk : ThreshKOK ms) (hlk : NoMixedLocks a ms) :
-    satEx (avail a ctx) ms = true →
-      ∃ w, (satDissatFixed ⟨ke, ctx, false, τ.mall.signed, a⟩ ms).sat.stack = .stack w :=
-  nonmall_complete_generic Sat.push0 ke ctx a ms τ hτ hm hs (.inl rfl) hraw hpre hk hlk
-
-/-- the fix repairs the sane F3 witness -/
-theorem f3Sane_fixed_satisfies :
-    ∃ w, (satDissatFixed ⟨keyEnv0, .segwitv0, false, true, f3Assets⟩ f3SaneScript).sat.stack = .stack w := by
-  obtain ⟨τ, hτ, _, hm, hs⟩ := f3Sane_sane
-  have := nonmall_complete_fixed keyEnv0 .segwitv0 f3Assets f3SaneScript τ hτ hm hs (by decide)
-    (by decide) (by decide) (by decide) f3Sane_model_refuses.1
+  have := nonmall_complete keyEnv0 .segwitv0 f3Assets f3SaneScript τ hτ hm hs (by decide)
+    (by decide) (by decide) (by decide) f3Sane_table_satisfiable
   rwa [hs] at this
 
 /-! ### non-vacuity of T3's hypotheses -/
@@ -310,31 +256,13 @@ theorem ex3_typed : ∃ τ, typeOf ex3Script = some τ ∧ τ.corr.base = .B ∧
 theorem ex3_table : satEx (avail ex3Assets .segwitv0) ex3Script = true := by
   unfold ex3Script ex3Assets; table_eval
 
-example : NoNonZero ex3Script ∧ NoRawPkH ex3Script ∧ AllPreimages ex3Assets ex3Script ∧
+example : NoRawPkH ex3Script ∧ AllPreimages ex3Assets ex3Script ∧
     ThreshKOK ex3Script ∧ NoMixedLocks ex3Assets ex3Script := by decide
 
 example : ∃ w, (satDissat ⟨keyEnv0, .segwitv0, false, true, ex3Assets⟩ ex3Script).sat.stack = .stack w := by
   obtain ⟨τ, hτ, _, hm, hs⟩ := ex3_typed
-  have := nonmall_complete_partial keyEnv0 .segwitv0 ex3Assets ex3Script τ hτ hm hs (by decide)
+  have := nonmall_complete keyEnv0 .segwitv0 ex3Assets ex3Script τ hτ hm hs
     (by decide) (by decide) (by decide) (by decide) ex3_table
   rwa [hs] at this
-
-/-! ## AFTER THE FIX (see the header): un-comment
-
-theorem mall_complete_table (ke : KeyEnv) (ctx : Ctx) (rhs : Bool) (a : Assets) (ms : Ms)
-    (hlk : NoMixedLocks a ms) (hsz : SigSizesOK a) (hsm : SmallScript ms) :
-    (satEx (avail a ctx) ms = true → ∃ w, (satDissat ⟨ke, ctx, true, rhs, a⟩ ms).sat.stack = .stack w) ∧
-    (dsatEx (avail a ctx) ms = true → ∃ w, (satDissat ⟨ke, ctx, true, rhs, a⟩ ms).dissat.stack = .stack w) := by
-  have := mall_complete_generic MODEL_NZ ke ctx rhs a ms (.inl rfl) hlk hsz hsm
-  rwa [satDissatG_model] at this
-
-theorem nonmall_complete (ke : KeyEnv) (ctx : Ctx) (a : Assets) (ms : Ms) (τ : Ty)
-    (hτ : typeOf ms = some τ) (hm : τ.mall.nonMall = true) (hs : τ.mall.signed = true)
-    (hraw : NoRawPkH ms) (hpre : AllPreimages a ms) (hk : ThreshKOK ms) (hlk : NoMixedLocks a ms) :
-    satEx (avail a ctx) ms = true →
-      ∃ w, (satDissat ⟨ke, ctx, false, τ.mall.signed, a⟩ ms).sat.stack = .stack w := by
-  have := nonmall_complete_generic MODEL_NZ ke ctx a ms τ hτ hm hs (.inl rfl) hraw hpre hk hlk
-  rwa [satDissatG_model] at this
--/
 
 end MsVerif.C02
